@@ -2081,3 +2081,56 @@ Proof.
     { intros u Hu. destruct (cl_timers s); [destruct Hu|]. cbn in Emin. destruct (c_min_timer l); [destruct (c_earlier _ _)|]; discriminate. }
     split; [exact G1|exact Hn1].
 Qed.
+
+(* ------------------------------------------------------------------ cl_exited is set by c_exit only *)
+Lemma finish_ex s g : cl_exited (c_finish_obj s g) = cl_exited s.
+Proof. destruct (cl_objs s !! g) as [t|] eqn:E; [apply (finish_facts s g t E)|rewrite c_finish_obj_none by exact E; reflexivity]. Qed.
+Lemma connect_attempt_ex cfg s call n : cl_exited (fst (connect_attempt cfg s call n)) = cl_exited s.
+Proof. unfold connect_attempt, c_new_obj. cbv zeta. repeat match goal with |- context [c_send ?X ?p] => destruct (c_send X p) as [? [|]] end; try destruct (_ =? 0); reflexivity. Qed.
+Lemma cancel_api_ex s : cl_exited (c_cancel_from_api s) = cl_exited s.
+Proof. unfold c_cancel_from_api. destruct (cl_cancelled s); reflexivity. Qed.
+Lemma cancel_loop_ex s e : cl_exited (c_cancel_from_loop s e) = cl_exited s.
+Proof. unfold c_cancel_from_loop. destruct (cl_cancelled s); reflexivity. Qed.
+Lemma complete_ex cfg s g t r ic : cl_exited (fst (complete cfg s g t r ic)) = cl_exited s.
+Proof.
+  unfold complete. cbv zeta. rewrite <- (finish_ex s g). generalize (c_finish_obj s g). intros s1.
+  destruct (cl_cancelled s1); [cbn [fst]; destruct (cl_exited s1) eqn:E; [exact E|cbn; exact E]|].
+  destruct t; try (cbn [fst]; reflexivity).
+  - destruct r; try (cbn [fst]; reflexivity). destruct (_ <=? _); [apply connect_attempt_ex|reflexivity].
+  - destruct (_ =? 6); [destruct r; cbn [fst]; try reflexivity; apply cancel_api_ex|].
+    destruct (_ =? 7); [destruct r; cbn [fst]; try reflexivity; apply (cancel_loop_ex s1 true)|]. reflexivity.
+Qed.
+Lemma start_retry_ex cfg s call kind key st p bt : cl_exited (fst (fst (fst (start_retry cfg s call kind key st p bt)))) = cl_exited s.
+Proof. unfold start_retry, c_new_obj. cbv zeta. destruct bt; destruct (c_send _ _); reflexivity. Qed.
+
+Ltac ex_walk :=
+  repeat first
+    [ progress cbn [fst snd loop_err]
+    | reflexivity
+    | rewrite complete_ex
+    | rewrite connect_attempt_ex
+    | rewrite finish_ex
+    | exact (cancel_loop_ex _ _)
+    | rewrite cancel_loop_ex
+    | match goal with |- context [start_retry ?a ?b ?c ?d ?e ?f ?g ?h] =>
+        let H := fresh "H" in pose proof (start_retry_ex a b c d e f g h) as H; destruct (start_retry a b c d e f g h) as [[[? ?] ?] [|]]; cbn [fst] in H end
+    | match goal with |- context [c_send ?X ?p] => destruct (c_send X p) as [? [|]] end
+    | match goal with |- cl_exited (fst (match ?x with _ => _ end)) = _ => destruct x end
+    | match goal with |- cl_exited (fst (if ?x then _ else _)) = _ => destruct x end
+    | match goal with |- cl_exited (fst (let (_, _) := ?x in _)) = _ => destruct x end
+    | match goal with |- context [if ?c then (set ?f ?v ?X) else ?X] => destruct c end
+    | assumption ].
+
+Lemma handle_packet_ex cfg s p : cl_exited (fst (handle_packet cfg s p)) = cl_exited s.
+Proof. unfold handle_packet, c_new_obj. destruct p; cbv zeta; ex_walk. Qed.
+Lemma do_call_ex cfg s id a : cl_exited (fst (do_call cfg s id a)) = cl_exited s.
+Proof. unfold do_call, call_simple, do_publish, c_next_mid, c_new_obj. destruct a; cbv zeta; ex_walk. Qed.
+
+Lemma Good_lr cfg ex s x r : Good cfg ex (s <| cl_last_read := x |>) r -> Good cfg ex s r.
+Proof. intros [G1 G2 G3 G4 G5]. split; [exact G1|exact G2|exact G3|exact G4|exact G5]. Qed.
+Lemma GoodU_lr cfg ex upd s x r : GoodU cfg ex upd (s <| cl_last_read := x |>) r -> GoodU cfg ex upd s r.
+Proof. intros [G1 G2 G3 G4]. split; [exact G1|exact G2|exact G3|exact G4]. Qed.
+Lemma Good_set_now cfg ex s s' o t : Good cfg ex s (s', o) -> SI (s' <| cl_now := t |>) -> Good cfg ex s (s' <| cl_now := t |>, o).
+Proof. intros [G1 G2 G3 G4 G5] Hsi. split; [exact Hsi|exact G2|exact G3|exact G4|exact G5]. Qed.
+Lemma SI_set_lr s : SI s -> SI (s <| cl_last_read := cl_now s |>).
+Proof. intros [H1 H2 H3 H4 H5 H6 H7]. split; cbn; try assumption. lia. Qed.
